@@ -78,6 +78,15 @@ static cJSON_bool replace_item_in_object(cJSON *object, const char *string, cJSO
 }
 cJSON_bool cJSON_ReplaceItemInObject(cJSON *object, const char *string, cJSON *newitem) { return replace_item_in_object(object, string, newitem); }
 
+/* OWN8 */
+void bad_OWN8_take_key(cJSON *replacement, cJSON *item) { replacement->string = item->string; replacement->type &= ~cJSON_StringIsConst; item->string = NULL; }
+void good_take_key(cJSON *replacement, cJSON *item)
+{
+    replacement->string = item->string;
+    replacement->type = (replacement->type & ~cJSON_StringIsConst) | (item->type & cJSON_StringIsConst);
+    item->string = NULL;
+}
+
 /* OWN1 */
 cJSON *bad_OWN1_unchecked(void) { cJSON *item = cJSON_New_Item(&global_hooks); item->type = cJSON_NULL; return item; }
 cJSON *good_checked(void) { cJSON *item = cJSON_New_Item(&global_hooks); if (item) { item->type = cJSON_NULL; } return item; }
